@@ -67,6 +67,12 @@ func c01Jobs(tier string) []Job {
 		ps("(a "+o1+" b)", inf(o1, id("a"), id("b")))
 	}
 	_ = strconv.Itoa
+	// layer W: whole programs against the harness's independent reference evaluator
+	for _, p := range c01WPrograms(tier) {
+		for _, mode := range []string{"reg", "noreg"} {
+			jobs = append(jobs, Job{Prop: "C01", Pkg: "eval", Func: "VerifRefEval", Args: []string{p.grol(), p.sexpr(), mode}, MaxDec: 1500})
+		}
+	}
 	return jobs
 }
 
